@@ -957,14 +957,16 @@ func (em *emitter) emitUnaryOp(expr *ast.UnaryOperator, reg int8, regType reflec
 			// Deference the pointer to check for "invalid memory address"
 			// errors, then discard the result.
 			em.fb.enterStack()
-			pointedElemType := regType.Elem()
-			pointer := em.emitExpr(operand, pointedElemType)
+			pointedElemType := exprType.Elem()
+			pointer := em.emitExpr(operand.Expr, exprType)
 			dst := em.fb.newRegister(pointedElemType.Kind())
 			em.fb.addPosAndPath(operand.Pos())
 			em.changeRegister(false, -pointer, dst, pointedElemType, pointedElemType)
-			em.fb.exitStack()
 			// The pointer is valid, so &*a is equivalent to a.
-			em.emitExprR(operand.Expr, regType, reg)
+			if reg != 0 {
+				em.changeRegister(false, pointer, reg, exprType, regType)
+			}
+			em.fb.exitStack()
 
 		// &v[i]
 		// (where v is a slice or an addressable array)
